@@ -7,7 +7,7 @@
 # remove with: git -C /repo worktree remove --force /tmp/verif-mutwt
 set -u
 PATCH=$(readlink -f "$1"); shift
-WT=/tmp/verif-mutwt
+WT=${MUTWT:-/tmp/verif-mutwt}
 HERE=$(cd "$(dirname "$0")/.." && pwd)
 if [ ! -d "$WT" ]; then git -C /repo worktree add -q --detach "$WT" HEAD || exit 2; fi
 git -C "$WT" checkout -q --detach "$(git -C /repo rev-parse HEAD)" 2>/dev/null
